@@ -670,6 +670,18 @@ def fixed_scenarios(run: Run):
             parts.append(x)
             scen["variadic-list-modified-after-the-call"] = ({"x": x, "y": y}, {"first": first, "second": second},
                                                              {"x": np.ones(2, np.float32), "y": np.ones(3, np.float32)})
+            # a function whose body is specialised to the static length of its argument, applied at two lengths (and a function that
+            # is applied twice at ONE length): each call reported its own type; a model holds one definition per function - either
+            # the build is refused, or every call's value conforms to the type reported for that call
+            from spox._function import to_function
+            half = to_function("FirstHalf" + tag, "verif.c06")(
+                lambda v: [op.slice(v, op.const(np.array([0], np.int64)), op.const(np.array([v.unwrap_tensor().shape[0] // 2], np.int64)))])
+            x = argument(Tensor(np.float32, (4,)))
+            y = argument(Tensor(np.float32, (10,)))
+            z = argument(Tensor(np.float32, (4,)))
+            scen["function-specialised-to-the-argument-length"] = (
+                {"x": x, "y": y, "z": z}, {"hx": list(half(x))[0], "hy": list(half(y))[0], "hz": list(half(z))[0]},
+                {"x": np.ones(4, np.float32), "y": np.ones(10, np.float32), "z": np.ones(4, np.float32)})
         for name, (ins, outs, feeds) in scen.items():
             try:
                 with warnings.catch_warnings():
